@@ -65,7 +65,7 @@ def run_model(prop, cases):
         if e is not None:
             idx.append(i)
             exprs.append(e)
-    res = coqrun.eval_exprs(exprs, prop.IMPORTS, chunk=getattr(prop, 'COQ_CHUNK', 400), tag=prop.ID)
+    res = coqrun.eval_exprs(exprs, prop.IMPORTS, chunk=getattr(prop, 'COQ_CHUNK', 200), tag=prop.ID)
     out = [None] * len(cases)
     for i, r in zip(idx, res):
         out[i] = r
